@@ -6,29 +6,15 @@
 // spelled out).
 #![allow(unused_imports, dead_code, unused_variables)]
 use vstd::prelude::*;
-use vstd::std_specs::ops::*;
-use core::ops::Add;
 use std::rc::Rc;
 
 verus! {
 
-pub struct LazyBigint { pub v: Ghost<int> }
-pub open spec fn lbv(x: int) -> LazyBigint { LazyBigint { v: Ghost(x) } }
-impl LazyBigint {
-    pub open spec fn val(self) -> int { self.v@ }
-    #[verifier::external_body]
-    pub fn from(x: usize) -> (r: LazyBigint) ensures r.val() == x { unimplemented!() }
-}
-impl Add for LazyBigint { type Output = LazyBigint; #[verifier::external_body] fn add(self, rhs: Self) -> Self { unimplemented!() } }
-impl AddSpecImpl<LazyBigint> for LazyBigint {
-    open spec fn obeys_add_spec() -> bool { true }
-    open spec fn add_req(self, rhs: LazyBigint) -> bool { true }
-    open spec fn add_spec(self, rhs: LazyBigint) -> LazyBigint { lbv(self.val() + rhs.val()) }
-}
+// @@INCLUDE lazyint@@
 /// std::borrow::Cow<LazyBigint>
 pub enum Cow<'a> { Borrowed(&'a LazyBigint), Owned(LazyBigint) }
 impl<'a> Cow<'a> {
-    pub open spec fn val(self) -> int { match self { Cow::Borrowed(b) => b.val(), Cow::Owned(o) => o.val() } }
+    pub open spec fn val(&self) -> int { match self { Cow::Borrowed(b) => b.val(), Cow::Owned(o) => o.val() } }
     // through Deref: Signed::is_negative, ToPrimitive::to_usize of LazyBigint
     #[verifier::external_body]
     pub fn is_negative(&self) -> (r: bool) ensures r == (self.val() < 0) { unimplemented!() }
